@@ -192,11 +192,14 @@ def report_key(r):
         return "use-after-free:" + "|".join(sorted(s))
     if r["kind"].startswith("lock-order-inversion"):
         return "lock-order-inversion"
-    if "CsgOpNode::NumLeaves" in s and r["freed"]:
+    if "CsgOpNode::NumLeaves" in s:
+        # NumLeaves reads cache_ without the guard (vs the guarded publish in ToLeafNode) ...
+        if s == {"CsgOpNode::NumLeaves", "CsgOpNode::ToLeafNode"} and not r["freed"]:
+            return "numleaves-reads-cache-unguarded"
+        # ... and walks raw CsgOpNode pointers that a concurrent reduction frees (reports against operator delete,
+        # ~CsgOpNode, or whatever object reuses the freed block)
         return "numleaves-walks-freed-opnode"
-    if s == {"CsgOpNode::NumLeaves", "CsgOpNode::ToLeafNode"}:
-        return "numleaves-reads-cache-unguarded"
-    if s == {"CsgOpNode::ToLeafNode"}:
+    if s <= {"CsgOpNode::ToLeafNode", "ImplToLeaf", "ErrorLeaf"}:
         return "toleafnode-cancel-writes-cache-unguarded"
     if "CrossSection::GetPaths" in s and s & {"CrossSection::GetTolerance", "CrossSection::Simplify", "CrossSection::SetTolerance", "CrossSection::Hull"}:
         return "crosssection-tolerance-read-unguarded"
